@@ -21,7 +21,7 @@ fn ascii() -> char {
 }
 
 fn build(cs: &[char]) -> String {
-    let mut s = String::new();
+    let mut s = String::with_capacity(8);
     let mut i = 0;
     while i < cs.len() {
         s.push(cs[i]);
@@ -65,38 +65,37 @@ macro_rules! k23 {
                 m += 1;
             }
             assert!(r.1.line == line && r.1.col == col);
-            // extend_string is the same function
-            let r2 = base.extend_string(&part);
-            assert!(r2.0.as_bytes().len() == rb.len());
-            // with_location replaces the position and keeps the pointer
-            let l2: usize = kani::any();
-            let c2: usize = kani::any();
-            let w = r.with_location(Location { line: l2, col: c2 });
-            assert!(w.1.line == l2 && w.1.col == c2);
-            assert!(w.0.as_bytes().len() == rb.len());
-            let mut q = 0;
-            while q < rb.len() {
-                assert!(w.0.as_bytes()[q] == rb[q]);
-                assert!(r2.0.as_bytes()[q] == rb[q]);
-                q += 1;
-            }
-            kani::cover!(line != l2);
+            kani::cover!(line != col);
             forget(base);
             forget(part);
             forget(r);
-            forget(r2);
-            forget(w);
         });
     };
 }
-//@ k23_extend_0_1 props=C10 tier=probe expect=pass fns=Path::extend_str,Path::extend_string,Path::with_location :: Path::extend_str on the root pointer "" and a 1-byte key (symbolic ASCII): result is "/" + key byte for byte, line/col kept; with_location replaces line/col and keeps the pointer
+//@ k23_extend_0_1 props=C10 tier=quick expect=pass fns=Path::extend_str :: Path::extend_str on the root pointer "" and a 1-byte key (symbolic ASCII): result is "/" + key byte for byte, line/col kept
 k23!(k23_extend_0_1, 0, 1, 6);
-//@ k23_extend_2_2 props=C10 tier=probe expect=pass fns=Path::extend_str,Path::extend_string,Path::with_location :: Path::extend_str on a 2-byte pointer and a 2-byte key (symbolic ASCII, any position): result is pointer + "/" + key byte for byte, position kept
+//@ k23_extend_1_0 props=C10 tier=quick expect=pass fns=Path::extend_str :: EMPTY key on a 1-byte pointer: pointer + "/" (an empty key still adds a path segment)
+k23!(k23_extend_1_0, 1, 0, 6);
+//@ k23_extend_1_1 props=C10 tier=quick expect=pass fns=Path::extend_str :: 1-byte pointer, 1-byte key
+k23!(k23_extend_1_1, 1, 1, 6);
+//@ k23_extend_2_2 props=C10 tier=quick expect=pass fns=Path::extend_str :: 2-byte pointer and 2-byte key (symbolic ASCII, any position): pointer + "/" + key byte for byte, position kept
 k23!(k23_extend_2_2, 2, 2, 8);
-//@ k23_extend_2_0 props=C10 tier=probe expect=pass fns=Path::extend_str :: empty key: pointer + "/"
-k23!(k23_extend_2_0, 2, 0, 6);
 
-//@ k23_twin props=C10 tier=probe expect=fail fns=Path::extend_str :: vacuity twin of the Path family
+//@ k23_wloc props=C10 tier=quick expect=pass fns=Path::with_location :: with_location on a 1-byte pointer: position replaced, pointer kept
+proof!(k23_wloc, 6, {
+    let c = ascii();
+    let base = Path(build(&[c]), Location { line: kani::any(), col: kani::any() });
+    let l2: usize = kani::any();
+    let c2: usize = kani::any();
+    let w = base.with_location(Location { line: l2, col: c2 });
+    assert!(w.1.line == l2 && w.1.col == c2);
+    assert!(w.0.as_bytes().len() == 1 && w.0.as_bytes()[0] == c as u8);
+    kani::cover!(l2 != c2);
+    forget(base);
+    forget(w);
+});
+
+//@ k23_twin props=C10 tier=quick expect=fail fns=Path::extend_str :: vacuity twin of the Path family
 proof!(k23_twin, 6, {
     let base = Path(build(&[ascii()]), Location { line: kani::any(), col: kani::any() });
     let r = base.extend_str("k");
